@@ -4,3 +4,9 @@ import IppModel.Props.C02
 #print axioms Ipp.Props.C02.parse_total
 #print axioms Ipp.Props.C02.parse_sync_total
 #print axioms Ipp.Props.C02.parse_async_total
+#print axioms Ipp.Props.C02.nest_wf
+#print axioms Ipp.Props.C02.nestMsg_wf
+#print axioms Ipp.Props.C02.lossy_m
+#print axioms Ipp.Props.C02.nest_depth
+#print axioms Ipp.Props.C02.depth_unbounded
+#print axioms Ipp.Props.C02.nest_size
